@@ -178,6 +178,8 @@ Input(kind, c) ==
   /\ UNCHANGED <<lane, natt>>
 Press(c) == CanInput /\ c \notin phys /\ Input("d", c) /\ phys' = phys \cup {c}
 Release(c) == CanInput /\ c \in phys /\ Input("u", c) /\ phys' = phys \ {c}
+\* OS key repeat of a held key: handle_repeat consults the key_outputs table of the configuration in force
+Repeat(c) == CanInput /\ c \in phys /\ Input("r", c) /\ UNCHANGED phys
 
 TickRec(r) == [on |-> TRUE, out |-> r.out, idle |-> r.idle, cb |-> r.cb, msgs |-> r.msgs, lrr |-> r.S.K.lrr,
                idx |-> r.S.idx, layer |-> LayerNameOf(r.S.cfg, CurLayerOf(r.S.cfg, r.S.K)), repl |-> r.repl]
@@ -216,7 +218,7 @@ Tick == /\ Alive
                 /\ natt' = natt + 1 /\ budget' = PostBudget
            ELSE /\ TickWith("none", FALSE, 0)
                 /\ hist' = TickAppend(hist) /\ UNCHANGED <<natt, budget>>
-Next == (\E c \in EnvKeys : Press(c) \/ Release(c)) \/ Tick
+Next == (\E c \in EnvKeys : Press(c) \/ Release(c) \/ Repeat(c)) \/ Tick
 
 View == <<SA, SB, SC, lane, mon, phys, natt, budget>>
 Edge == PrintT(<<"EDGE", ToJson([h |-> hist', x |-> obs'])>>)
@@ -488,7 +490,12 @@ def tail_steps(p, keys_down, settle):
     s.append(["t", settle + 4])
     for name in p["keys"]:
         c = cfgdesc.code(name)
-        s += [["d", c], ["t", 2], ["u", c], ["t", settle]]
+        # held long enough for the OS to send key repeats (every input kind belongs to "behaves like a fresh instance")
+        s += [["d", c], ["t", 2], ["r", c], ["t", 1], ["r", c], ["t", 2], ["u", c], ["t", settle]]
+    # the last key held while the first one repeats (a held layer / modifier under the repeat)
+    if len(p["keys"]) >= 2:
+        a, b = cfgdesc.code(p["keys"][0]), cfgdesc.code(p["keys"][-1])
+        s += [["d", b], ["t", 2], ["d", a], ["t", 2], ["r", a], ["t", 1], ["r", b], ["t", 1], ["u", a], ["t", 2], ["u", b], ["t", settle]]
     return s
 
 
@@ -562,7 +569,9 @@ def random_cases(p, rng, n, settle, nev):
                     s.append(["d", k]); down.add(k)
             else:
                 k = rng.choice(keys)
-                if k in down:
+                if k in down and rng.random() < 0.35:
+                    s.append(["r", k])
+                elif k in down:
                     s.append(["u", k]); down.discard(k)
                 else:
                     s.append(["d", k]); down.add(k)
@@ -726,6 +735,32 @@ def scenario_pairs():
              {"layers": [("n0", ["a", "lsft"])], "extra": "(defoverrides (lsft a) (x))"})
     add("overrides", p, [["d", c("a")], ["t", 2], ["u", c("a")], ["t", 2], ["w", 0, "N"], ["d", r], ["t", 2], ["u", r], ["t", 40],
                          ["d", c("b")], ["t", 2], ["d", c("a")], ["t", 3], ["u", c("a")], ["t", 2], ["u", c("b")], ["t", 40]])
+    # OS key repeat after the reload: handle_repeat consults the per-layer physical-key -> outputs table (key_outputs) of
+    # the configuration in force; the new file maps the keys to other outputs on the same layer index ...
+    def rtype(ks):
+        t = []
+        for k_ in ks:
+            t += [["d", c(k_)], ["t", 2], ["r", c(k_)], ["t", 1], ["r", c(k_)], ["t", 1]]
+        for k_ in reversed(ks):
+            t += [["r", c(k_)], ["u", c(k_)], ["t", 2]]
+        return t + [["t", 30]]
+    p = pair("s_rep", ["a", "b"], R1, {"layers": [("l0", ["a", "b"])]}, {"layers": [("n0", ["x", "S-y"])]})
+    add("repeat_changed_outputs", p, rtype(["a"]) + [["w", 0, "N"], ["d", r], ["t", 2], ["u", r], ["t", 30]]
+        + rtype(["a"]) + rtype(["b"]) + rtype(["a", "b"]))
+    # ... and has more layers than the old one, with a layer beyond the old count held / switched to under the repeat
+    p = pair("s_rep_layers", ["a", "b", "c"], R1, {"layers": [("l0", ["a", "b", "c"])]},
+             {"layers": [("n0", ["1", "(layer-while-held n2)", "(layer-switch n1)"]), ("n1", ["2", "_", "(layer-switch n0)"]),
+                         ("n2", ["3", "_", "_"])]})
+    add("repeat_more_layers", p, [["w", 0, "N"], ["d", r], ["t", 2], ["u", r], ["t", 30]] + rtype(["a"]) + rtype(["b", "a"])
+        + rtype(["c"]) + rtype(["a"]) + rtype(["b", "a"]))
+    # the reverse: fewer layers / same outputs (an unchanged table must keep working), and a failed reload keeps the old table
+    p = pair("s_rep_back", ["a", "b", "c"], R1,
+             {"layers": [("l0", ["1", "(layer-while-held l1)", "c"]), ("l1", ["3", "_", "_"])]}, {"layers": [("n0", ["a", "b", "c"])]})
+    add("repeat_fewer_layers", p, rtype(["b", "a"]) + [["w", 0, "N"], ["d", r], ["t", 2], ["u", r], ["t", 30]] + rtype(["a"]) + rtype(["b", "a"]))
+    add("repeat_after_failed_reload", pair("s_rep_back", ["a", "b", "c"], R1,
+                                           {"layers": [("l0", ["1", "(layer-while-held l1)", "c"]), ("l1", ["3", "_", "_"])]},
+                                           {"layers": [("n0", ["a", "b", "c"])]}),
+        [["w", 0, "S"], ["d", r], ["t", 2], ["u", r], ["t", 30]] + rtype(["a"]) + rtype(["b", "a"]))
     # zippychord: its chords and detection state are a process-wide global outside the Kanata fields; reload must
     # reconfigure it from the new file also when that file has no defzippy (then: no chords at all)
     zopt = " on-first-press-chord-deadline 40 idle-reactivate-time 40"
